@@ -615,6 +615,13 @@ impl Scenario for Pipeline {
             }
             holds.sort();
         }
+        // a stalled terminal: draws that hold the table for seconds while the
+        // queues between the tasks are short (1 run in 7)
+        let stalled = rng.chance(0.15);
+        if stalled {
+            holds = (0..rng.usize(2, 4)).map(|_| (rng.below(t_flush_ns), *rng.pick(&[1_600_000_000u64, 3_000_000_000, 3_000_000_000]))).collect();
+            holds.sort();
+        }
         let sweep = if rng.chance(0.15) { (*rng.pick(&[60u32, 10]), 1u64) } else { (0, 1) };
         let n = rcpts.len() as u32;
         PipelinePlan {
@@ -623,7 +630,7 @@ impl Scenario for Pipeline {
             rcpts,
             receivers,
             window_ms,
-            cap: *rng.pick(&[1usize, 2, 8, 101, 301]),
+            cap: if stalled { *rng.pick(&[1usize, 2]) } else { *rng.pick(&[1usize, 2, 8, 101, 301]) },
             tap: rng.chance(0.8),
             yields: rng.chance(0.5),
             store_history: rng.chance(0.8),
